@@ -62,21 +62,29 @@ class _WriteHandle:
         if not append or path not in fs.files:
             fs.files[path] = ""          # POSIX: truncation at open ("w"); "a" keeps what is there
         fs.open_writes[path] = self
+        self._parts = []                 # written since the last sync (appending to one long string is quadratic)
+
+    def sync(self):
+        if self._parts:
+            self.fs.files[self.path] = self.fs.files.get(self.path, "") + "".join(self._parts)
+            self._parts = []
 
     def write(self, s):
         if self.closed:
             raise ValueError("I/O operation on closed file.")
         if self.fs.plan.tick("write"):
+            self.sync()
             if self.fs.plan.kind == "crash":
                 raise SimCrash("crash during write to " + self.path)
             raise OSError(self.fs.plan.errno, _real_os.strerror(self.fs.plan.errno), self.path)
-        self.fs.files[self.path] += s
+        self._parts.append(s)
         self.fs.bytes_written += len(s)
         return len(s)
 
     def close(self):
         if self.closed:
             return
+        self.sync()
         self.closed = True
         self.fs.open_writes.pop(self.path, None)
         if self.fs.plan.tick("close"):
@@ -233,7 +241,14 @@ class SimFS:
             return _WriteHandle(self, path, append="a" in mode)
         if path not in self.files:
             raise FileNotFoundError(_errno.ENOENT, "No such file or directory", path)
+        self.sync()
         return _ReadHandle(self, path, self.files[path])
+
+    def sync(self):
+        """Make what open text handles have written visible in `files`."""
+        for h in list(self.open_writes.values()):
+            if hasattr(h, "sync"):
+                h.sync()
 
     def mkdir(self, path):
         self.dirs.add(path.rstrip("/"))
@@ -254,6 +269,7 @@ class SimFS:
     def crash(self, keep):
         """Files whose handle is still open keep a prefix of what was written."""
         torn = []
+        self.sync()
         for path in list(self.open_writes):
             data = self.files.get(path, "")
             self.files[path] = data[: int(len(data) * keep)]
